@@ -97,7 +97,7 @@ def sparsity_vcs(eng, acc, T, qnums, what):
         return fails
     for idx, a in pend_int:
         if prover.prove_int(eng, [a], acc) != 'proved':
-            if prover.prove(eng, [T[idx]], rounds=2, acc=acc, label='vc_sparsezero') != 'proved':
+            if prover.prove_escalating(eng, [T[idx]], rounds=(2, 3), acc=acc, label='vc_sparsezero', max_products=20000) != 'proved':
                 fails.append(f'{what}{list(idx)} may be non-zero although its charges do not cancel')
     return fails
 
